@@ -334,6 +334,21 @@ class C17(Check):
                     rec.cls('directed-cases')
                     self.replay(case, rec, count=True)
                     rec.nt(case['history'])
+            # the same ANY DEFINED BY module compiled with a choice table, then without one / with another one under
+            # other codecs and options: nothing of an earlier call's table may survive in the cache
+            for k in range(2):
+                j = shard['directed'] * 2 + k
+                c1, c2, c3 = CODECS[(seed + j) % 8], CODECS[(seed + j + 3) % 8], CODECS[(seed + j + 5) % 8]
+                first = ['ADB', 'ADB2'][j % 2]
+                case = {'history': [['write', 'f1', 'T3'], ['compile', ['f1'], ['T3'], c1, False, first],
+                                    ['compile', ['f1'], ['T3'], c2, False, None],
+                                    ['compile', ['f1'], ['T3'], c1, True, None],
+                                    ['compile', ['f1'], ['T3'], c3, bool(j % 2), 'ADB' if first == 'ADB2' else 'ADB2'],
+                                    ['compile', ['f1'], ['T3'], c1, False, None]], 'pool': POOL}
+                rec.cases += 1
+                rec.cls('directed-cases')
+                self.replay(case, rec, count=True)
+                rec.nt(case['history'])
         finally:
             shutil.rmtree(base, ignore_errors=True)
 
